@@ -1,6 +1,8 @@
 package remote
 
 import (
+	"fmt"
+
 	"google.golang.org/protobuf/proto"
 	"google.golang.org/protobuf/reflect/protoreflect"
 	"google.golang.org/protobuf/reflect/protoregistry"
@@ -53,7 +55,11 @@ type VTUnmarshaler interface {
 type ProtoSerializer struct{}
 
 func (ProtoSerializer) Serialize(msg any) ([]byte, error) {
-	return proto.Marshal(msg.(proto.Message))
+	pm, ok := msg.(proto.Message)
+	if !ok {
+		return nil, fmt.Errorf("cannot serialize %T: not a proto.Message", msg)
+	}
+	return proto.Marshal(pm)
 }
 
 func (ProtoSerializer) Deserialize(data []byte, tname string) (any, error) {
@@ -68,7 +74,11 @@ func (ProtoSerializer) Deserialize(data []byte, tname string) (any, error) {
 }
 
 func (ProtoSerializer) TypeName(msg any) string {
-	return string(proto.MessageName(msg.(proto.Message)))
+	pm, ok := msg.(proto.Message)
+	if !ok {
+		return ""
+	}
+	return string(proto.MessageName(pm))
 }
 
 type VTProtoSerializer struct{}
